@@ -82,6 +82,12 @@ PROP = {'drive': ['Cff'], 'modules': ['SfntV.Props.C13'],
                  'cffIndex.encode panics in the Go code); the model works on unbounded integers, the int32 offsets of the Go code '
                  'wrap above 2 GiB (the read-back clause is stated for files < 2 GiB). The sweep family (D cff.file.rt, V '
                  'cff.file.model) still exercises the real loop: up to 6 passes observed',
+                 'fixed families on the real code (D cff.file.rt, V cff.file.model, spec and read models): built-in encodings that are a proper '
+                 'part of the Standard / Expert encoding (glyph names predefined, only glyphs 1..k encoded), the whole predefined encoding, '
+                 'and a part plus one foreign code; cross-defaults: every numeric Top DICT / Private DICT field (UnderlinePosition/Thickness, '
+                 'ItalicAngle, BlueShift, BlueFuzz, BlueScale, StdHW, StdVW, FontMatrix, widths) takes the default value of each other field '
+                 'and its own default +-1, one field at a time and all together (values inside the documented omission windows - BlueScale '
+                 'within 1e-6, FontMatrix within 1e-5 of the default - are excluded from the D predicate)',
                  'encodings with 250..256 codes (contiguous, scrambled, partly ranged, range counts 1..256 around 127/128/129 and 255, '
                  'supplements) are a fixed boundary family: D cff.encoding.rt on the real code, V against the model, whole fonts with 255/256 '
                  'encoded glyphs; 256 glyphs in 256 ranges are refused by encodeEncoding (neither format can hold them), verdict only',
